@@ -23,6 +23,19 @@ CHECKS = {
         design="3/C05"),
 }
 
+CHECKS["C10"] = dict(
+    text="Decides the memory-safety and gate clauses of the property on all paths: (R1) every write into the caller's buffer by any of the "
+         "47 functions in the attribute-getter slot, and along the chain from the public xcm_attr_get* entry points through the attribute "
+         "tree to the indirect call, is bounded by `capacity` (bounded-write analysis with difference constraints, requirements abduced to "
+         "parameters and discharged at call sites); (R2) the success return equals the bytes written; (R3) the set gate is exhaustive over "
+         "the attribute types and tests length, syntax, existence, node kind, writability and type, each with its documented errno, before the "
+         "setter runs; (R4) fixed-size setters read at most sizeof(type); (R5) a setter that rejects has not modified the socket; (R6) every "
+         "array access of the name parser is in bounds (record invariant num_comps <= 64 checked at every store). Not decided: attribute "
+         "values, behaviour of getters in every connection state (nullness of OpenSSL objects).",
+    note=TRUSTED + " Pointer parameters of different names are assumed not to alias; the sizes written by libc sinks are taken from their man pages.",
+    technique="bounded-write dataflow (difference constraints) + guard-ordering/dominance checks + path exploration",
+    design="3/C10")
+
 NOT_APPLICABLE = {}
 
 
